@@ -735,6 +735,14 @@ func parseParams(s string) ([]Param, error) {
 
 		if r == '(' {
 			part := getBracketedString(s, '(', ')')
+			if len(part)+2 > len(s) {
+				// No closing bracket.
+				// TODO: Add position to this error.
+				return nil, &Error{
+					Type: ErrInvalidUnionType,
+					Hint: s,
+				}
+			}
 			var types ParamType
 			for _, c := range part {
 				typ, ok := parseParamType(c)
@@ -783,6 +791,13 @@ func parseParams(s string) ([]Param, error) {
 				}
 			}
 			part := getBracketedString(s, '<', '>')
+			if len(part)+2 > len(s) {
+				// No closing bracket.
+				// TODO: Add position to this error.
+				return nil, &Error{
+					Type: ErrUnmatchedSubtype,
+				}
+			}
 			sub, err := parseParams(part)
 			if err != nil {
 				return nil, err
